@@ -991,6 +991,26 @@ pub fn c15(ctx: &mut Ctx) -> String {
         }
         case_cli(ctx, &case);
     }
+    // the largest representable payoffs: a constant-sum file whose two payoffs each fit in a double,
+    // as does half their sum, while the sum itself does not
+    {
+        let txt = "EFG 2 R \"huge\" { \"one\" \"two\" }\np \"\" 1 1 \"r\" { \"a\" \"b\" } 0\nt \"\" 1 { 1.00000001e308 0.99999999e308 }\nt \"\" 2 { 0.99999999e308 1.00000001e308 }\n";
+        let case = json!({"op": "cli-huge-sum", "input": txt});
+        for fmt in ["gambit", "auto"] {
+            let run = run_cfr(ctx, &["--input-format".to_string(), fmt.to_string(), "-m".to_string(), "full".to_string(), "-t".to_string(), "1".to_string(), "-p".to_string(), "1".to_string()], Some(txt));
+            ctx.stat("huge_constant_sum_runs");
+            match (run.status, serde_json::from_str::<Value>(&run.stdout)) {
+                (Some(0), Ok(v)) => {
+                    let (u1, u2) = (v["player_one_utility"].as_f64().unwrap_or(f64::NAN), v["player_two_utility"].as_f64().unwrap_or(f64::NAN));
+                    // each player's own payoffs lie in [0.99999999e308, 1.00000001e308]
+                    if !(u1 >= 0.9999e308 && u1 <= 1.0001e308 && u2 >= 0.9999e308 && u2 <= 1.0001e308) {
+                        ctx.fail_prop(&case, format!("payoffs of about 1e308 for both players, printed utilities ({:e}, {:e})", u1, u2));
+                    }
+                }
+                (st, _) => ctx.fail_prop(&case, format!("a valid constant-sum Gambit file with payoffs near the largest double was not solved ({}): exit status {:?}, stderr {:?}", fmt, st, &run.stderr[..run.stderr.len().min(300)])),
+            }
+        }
+    }
     "generated valid JSON-DSL and Gambit files (constant sums 0, 1, 4, -2.5, 10; payoffs attached to interior nodes; shared outcomes; unnamed infosets; rational chance probabilities; action lists in non-sorted order) x methods x presets x -t x -r x -p x -c x input routes x output destination; the printed strategies are re-evaluated on the game as written in the file by an independent evaluator, by the model's evaluator and (small games) by brute force over pure strategies; Gambit files also use outcomes referred to by number only, one outcome on interior nodes and terminals, interior outcomes paying the players differently, decimal / exponent payoffs, several interior outcomes on a path, pair sums varying inside the 0.1 % tolerance; every file's text is parsed by the real gambit-parser / serde_json into the AST the program sees and given to the model of the command-line layer (Model/Cli.lean): its conversion (cli-raw) against the generator's game, its whole run (-m full -p 1) against the printed object, otherwise its evaluation of the printed strategies (cli-eval) against the printed numbers".to_string()
 }
 
@@ -1371,6 +1391,38 @@ pub fn c17(ctx: &mut Ctx) -> String {
             case_reject(ctx, &case);
         }
         // contract violations of C11 surface as the game-error category
+        if i % 3 == 2 {
+            // every third case: a random small raw tree (the stream that probes `from_root` in C11),
+            // written as a JSON file whenever it violates the contract and its names can be written
+            for _ in 0..16 {
+            let mut budget = ctx.rng.range(3, 10) as i64;
+            let t2 = gen_small_raw(&mut ctx.rng, &mut budget, 0);
+            let viol = violations(&t2);
+            if !viol.is_empty() && !viol.contains("NonFinitePayoff") && !viol.contains("NonPositiveChance") && !viol.contains("EmptyChance") && !viol.contains("EmptyPlayer") {
+                let (ng2, names2) = name_game(&mut nrng, &t2);
+                if names_ok(&ng2) {
+                    let txt = to_json_file(&ng2, &names2);
+                    let it = intern(&ng2, &names2, 0.0, false);
+                    if !violations(&it.tree).is_empty() {
+                        let case = json!({"op": "cli-reject", "format": "json", "corruption": "contract-raw-tree", "input": txt});
+                        let run = run_cfr(ctx, &["--input-format".to_string(), "json".to_string(), "-t".to_string(), "3".to_string(), "-m".to_string(), "full".to_string(), "-p".to_string(), "1".to_string()], Some(&txt));
+                        ctx.stat("contract_violation_raw-tree");
+                        if run.status == Some(0) || !run.stdout.trim().is_empty() {
+                            ctx.fail_prop(&case, format!("a tree violating the library contract ({:?}) was solved", violations(&it.tree)));
+                        } else if !run.stderr.contains("game-error") && !run.stderr.contains("json-error") {
+                            ctx.fail_prop(&case, format!("contract violation {:?}: diagnostic names no documented category: {:?}", violations(&it.tree), &run.stderr[..run.stderr.len().min(300)]));
+                        }
+                        let ast = ast_of(&txt);
+                        let opts = Opts { method: "full".into(), discount: "dcfr".into(), t: 3, r: 0.0, p: 1, c: 0.0 };
+                        let resp = ctx.model.ask(&ast.run_request("json", "stdin", &opts));
+                        ctx.stat("cli_model_run_requests");
+                        compare_run(ctx, &case, &ast, &resp, run.status, &run.stdout, &run.stderr, 1.0, "contract-raw-tree");
+                        ctx.count(t2.hash(), true);
+                    }
+                }
+            }
+            }
+        }
         if i % 3 != 2 {
             // every third case on a game of the stream with any kind of violation; every third on
             // one infoset shared by several nodes with three or four actions, with the kinds that
